@@ -4,6 +4,7 @@ mod exec;
 mod explore;
 mod world;
 mod fw;
+mod gen;
 mod interp;
 mod lattice;
 mod macros;
